@@ -96,14 +96,66 @@ static long gen_packet(vrng *r, int sd, unsigned char *o)
    return n;
 }
 
+
+/* Huge packets: implicit last frames and padding totals beyond 2^15 / 2^16, where an `opus_int16` store or a
+   narrower `last_size` / `pad` would wrap (the model computes in unbounded integers; theorems int_ranges /
+   int16_stores_lossless / int16_truncated_store_rejected say the C code must agree with it for every
+   len < 2^31).  All are rejected by a correct parser unless only the padding is huge. */
+static long gen_huge(vrng *r, int sd, unsigned char *o)
+{
+   static const long edge[] = {32767, 32768, 32769, 34043, 34044, 65535, 65536, 65537, 65540, 66811, 66812, 66813, 98304, 131072, 131075};
+   long n = 0, v = vchance(r, 70) ? edge[vbelow(r, sizeof(edge) / sizeof(edge[0]))] + vrange(r, -2, 2) : vrange(r, 32768, 150000), k;
+   int kind = (int)vbelow(r, 5), config = (int)vbelow(r, 32), fill = vchance(r, 50) ? 0 : (int)vbelow(r, 256);
+   if (kind == 0) {                                     /* code 0: one implicit frame of v bytes */
+      o[n++] = (unsigned char)(config * 8);
+      if (sd) n += put_size(o + n, (int)vbelow(r, 1276));
+      for (k = 0; k < v; k++) o[n++] = (unsigned char)fill;
+   } else if (kind == 1) {                              /* code 1: two implicit frames of v/2 bytes (sometimes odd total) */
+      if (v > 95000) v = 95000;
+      o[n++] = (unsigned char)(config * 8 + 1);
+      if (sd) n += put_size(o + n, (int)vbelow(r, 1276));
+      for (k = 0; k < 2 * v + (vchance(r, 15) ? 1 : 0); k++) o[n++] = (unsigned char)fill;
+   } else if (kind == 2) {                              /* code 2 / code 3 VBR: small explicit frames, huge implicit last frame */
+      int c3 = vbelow(r, 2), cnt = c3 ? vrange(r, 2, 6) : 2, i, sz[8];
+      o[n++] = (unsigned char)(config * 8 + (c3 ? 3 : 2));
+      if (c3) o[n++] = (unsigned char)(cnt | 128);
+      for (i = 0; i < cnt - 1; i++) { sz[i] = vchance(r, 50) ? (int)vbelow(r, 6) : (int)vbelow(r, 1276); n += put_size(o + n, sz[i]); }
+      if (sd) n += put_size(o + n, (int)vbelow(r, 1276));
+      for (i = 0; i < cnt - 1; i++) for (k = 0; k < sz[i]; k++) o[n++] = (unsigned char)fill;
+      for (k = 0; k < v; k++) o[n++] = (unsigned char)fill;
+   } else if (kind == 3) {                              /* code 3 CBR: cnt frames of v' bytes each, v' beyond 2^15 / 2^16 */
+      int cnt = vrange(r, 2, 5); long per = v; if (per * cnt > 190000) per = 190000 / cnt;
+      o[n++] = (unsigned char)(config * 8 + 3);
+      o[n++] = (unsigned char)cnt;
+      if (sd) n += put_size(o + n, (int)vbelow(r, 1276));
+      for (k = 0; k < per * cnt + (vchance(r, 15) ? 1 : 0); k++) o[n++] = (unsigned char)fill;
+   } else {                                             /* code 3 with a long padding chain: pad total beyond 2^15 / 2^16 */
+      int cnt = vrange(r, 1, 3), vbr = vbelow(r, 2), i, sz[4]; long links = v / 254, last = vchance(r, 50) ? v % 254 : (long)vbelow(r, 255), pad;
+      if (links > 740) links = 740;
+      pad = 254 * links + last;
+      o[n++] = (unsigned char)(config * 8 + 3);
+      o[n++] = (unsigned char)(cnt | 64 | (vbr ? 128 : 0));
+      for (k = 0; k < links; k++) o[n++] = 255;
+      o[n++] = (unsigned char)last;
+      for (i = 0; i < cnt; i++) sz[i] = vbr ? (int)vbelow(r, 40) : 7;
+      if (vbr) for (i = 0; i < cnt - 1; i++) n += put_size(o + n, sz[i]);
+      if (sd) n += put_size(o + n, sz[cnt - 1]);
+      for (i = 0; i < cnt; i++) for (k = 0; k < sz[i]; k++) o[n++] = (unsigned char)fill;
+      if (vchance(r, 25)) pad -= vrange(r, 1, 300);     /* padding cut short: the chain promises more than there is */
+      for (k = 0; k < pad; k++) o[n++] = 0;
+   }
+   return n;
+}
+
 static void run_rand(uint64_t seed, long cases)
 {
-   static unsigned char buf[200000];
+   static unsigned char buf[400000];
    vrng r; long c; r.s = seed;
    for (c = 0; c < cases; c++) {
       int sd = vbelow(&r, 2);
-      long n = gen_packet(&r, sd, buf);
-      int mut = vbelow(&r, 10);
+      int huge = (c % 300 == 7 && c < 60000);            /* at most 200 huge packets per stream */
+      long n = huge ? gen_huge(&r, sd, buf) : gen_packet(&r, sd, buf);
+      int mut = huge ? 5 + (int)vbelow(&r, 20) : (int)vbelow(&r, 10);
       if (mut == 0 && n > 0) n = vbelow(&r, (uint32_t)n + 1);                 /* truncate */
       else if (mut == 1) { int k = vrange(&r, 1, 4); while (k--) buf[n++] = (unsigned char)vnext(&r); } /* extend */
       else if (mut == 2 && n > 0) buf[vbelow(&r, n < 6 ? (uint32_t)n : 6)] = (unsigned char)vnext(&r);   /* header byte */
